@@ -28,7 +28,7 @@ CONSTANTS
   NeedStruct = FALSE
   MaxRich <- Unlimited
   NCmtCls = 7
-  NCppForms = 27
+  NCppForms = 29
   NGarb = 7
   DirectiveCls <- DirCls
 INVARIANT WellNested
